@@ -540,16 +540,28 @@ def run(ctx: Ctx):
         "LALR(1) table construction of the vendored PLY is trusted as the reference semantics of the grammar; the model is a "
         "precedence-climbing parser compared with it on every generated string",
         "translator harness/translators/grammar.py (Python ast -> Gallina tables) is trusted; its tables are pinned by theorems",
+        "identifier resolution (interpret_identifier, categorizeConstant, the bind map) is a parameter of the conversion model; the "
+        "harness observes it by calling the real visitIdentifier once per name; column ids are per-run indices (only types matter)",
+        "the conversion model makes no claim (NoClaim) for POINT / region / uuid / ingest_date expressions, .begin/.end as IN items and "
+        "==/!= between timespans (known finding F-C14-timespan-eq); the share of such cases is recorded in histogram conv_model_sample",
     ]
     ctx.cov["rule"] = (
         "a string counts as non-trivial when it is distinct and either contains operators of at least two different documented "
         "precedence levels (or a unary operator / parentheses / IN list), or is a mutated / invalid-by-construction / garbage string; "
         "valid strings come from a typed grammar-directed generator (depth <= 4) rendered in three spellings (plain, tight, wild "
         "whitespace + keyword case), invalid ones from 17 syntax families, 14 ill-typed families, token deletion/duplication/swap "
-        "and random garbage"
+        "and random garbage; in the conversion stage a case counts when convert_expression_string_to_predicate rejected a string "
+        "that is a typing family / hand-written typing edge case / grammar-valid string (i.e. rejection for a typing or resolution reason)"
     )
     # ---- tie T + obligations ----------------------------------------------------------------
     ctx.regen("grammar", tr.translate)
+    # the conversion layer is stated over C05's Expr.v / SqlExpr.v, which are defined over the regenerated Timespan and
+    # Predicate definitions (tuple literals go through TimespanGen.py_mk): regenerate them here too, so that this check
+    # does not depend on C05 / C11 / C15 having run first
+    from harness.translators import predicate as ptr
+    from harness.translators import timespan as ttr
+    ctx.regen("timespan", ttr.translate)
+    ctx.regen("predicate", ptr.translate)
     props_ok = ctx.build_props(extra_targets=["Model/ParserCheck.vo", "Model/ParserConvCheck.vo", "Model/ParserShow.vo"])
     if not props_ok:
         from harness.common import coq_make
@@ -753,6 +765,8 @@ def _one_pass(ctx: Ctx, g: Gen, r, sizes, first: bool):
     ctx.log(f"correspondence canonical: {len(canon_cases)} trees, disagreements {None if bad is None else len(bad)}")
 
     _conv_stage(ctx, r, cases, hdr, first)
+    if first:
+        _numlit_stage(ctx, r, hdr)
 
     # ---- through a real Butler -----------------------------------------------------------------
     pool = [c for c in cases if c["kind"] in ("corpus", "replay")]
@@ -964,6 +978,50 @@ def _conv_stage(ctx: Ctx, r, cases, hdr: str, first: bool):
             ctx.nontrivial("conv:" + m["s"])
     ctx.log(f"correspondence conv: {len(conv_cases)} cases, disagreements {None if bad is None else len(bad)}; "
             f"sample of {len(sample)}: model makes no claim on {None if noclaim is None else len(noclaim)}")
+
+
+def _numlit_stage(ctx: Ctx, r, hdr: str):
+    """O4 (literal values) for numeric literals + tie K for Model/ParserConv.num_value: the real visitNumericLiteral, the
+    documented value (the decimal number that was written, Python Fraction(text)) and the model agree"""
+    import math
+    from fractions import Fraction
+    texts = set(INT_LITS + FLOAT_LITS + ["0", "00", "1e0", "1E0", "1e+0", "1E-0", "0.", ".0", "0.0e0", "9.99E2", "123456789.987654321", "1e22", "1e-7"])
+    for _ in range(120):
+        ip = "".join(r.choice("0123456789") for _ in range(r.randint(0, 4)))
+        fp = "".join(r.choice("0123456789") for _ in range(r.randint(0, 3)))
+        body = r.choice([ip or "0", (ip or "0") + "." + fp, "." + (fp or "5")])
+        ex = r.choice(["", "", "e", "E"])
+        if ex:
+            ex += r.choice(["", "+", "-"]) + str(r.randint(0, 12))
+        texts.add(body + ex)
+    texts = sorted(texts)
+    texts += [sg + t for t in texts[:60] for sg in "+-"]          # signed literals of IN lists
+    st, out = run_worker("c14_impl", "numlit_batch", {"texts": texts}, timeout=300)
+    if st != "ok":
+        ctx.tie_broken("harness", "numlit_batch", str(out)[-600:])
+        return
+    cases, meta = [], []
+    for t, rec in zip(texts, out["results"]):
+        ctx.count()
+        want = Fraction(t)
+        want_int = re.fullmatch(r"[+-]?[0-9]+", t) is not None        # documented: an integer literal is a run of digits
+        if "exc" in rec:
+            ctx.oracle_fail(f"numeric-literal-exc:{rec['exc']}", {"text": t, "where": f"visit.exposure_time = {t}"}, f"visitNumericLiteral({t!r}) raised {rec['exc']}")
+        else:
+            ok = (rec["type"] == "int" and want_int and rec["int"] == want) or (
+                rec["type"] == "float" and not want_int and rec["float"] is not None and
+                (rec["float"] == float(want) or (math.isinf(rec["float"]) and abs(want) > 1e308)))
+            if not ok:
+                ctx.oracle_fail(f"numeric-literal-value:{'int' if want_int else 'float'}", {"text": t, "got": rec, "want": str(want)},
+                                "a numeric literal does not have the value that was written")
+        ctx.nontrivial("num:" + t)
+        cases.append(f"({ccodes(t)}, {cbool(want_int)}, {cz(want.numerator)}, {want.denominator}%positive)")
+        meta.append({"text": t, "want": str(want), "real": rec})
+    hdr_n = hdr.replace("Model.ParserCheck.", "Model.ParserCheck Model.Expr Model.SqlExpr Model.ParserConv Model.ParserConvCheck.")
+    bad = ctx.coq_cases("numlit", hdr_n, cases, "chk_num", shard=1000)
+    for i in (bad or [])[:6]:
+        ctx.disagreement("numlit", meta[i], "model num_value differs from the value that was written")
+    ctx.log(f"correspondence numlit: {len(cases)} numeric spellings, disagreements {None if bad is None else len(bad)}")
 
 
 def _shape_sig(G) -> str:
